@@ -38,6 +38,10 @@ def one(sd, tier):
     out = dict(repo_head=sh(["git", "-C", "/repo", "rev-parse", "--short", "HEAD"])[1].strip(), tier=tier)
     try:
         rc, o = sh(["git", "apply", os.path.join(sd, "patch.diff")], cwd=wt)
+        if rc != 0:  # later commits touched neighbouring lines: fall back to a three-way merge
+            sh(["git", "checkout", "--", "."], cwd=wt)
+            rc, o = sh(["git", "apply", "--3way", os.path.join(sd, "patch.diff")], cwd=wt)
+            out["applied_with_3way"] = rc == 0
         out["applies"] = rc == 0
         if rc != 0:
             out["apply_output"] = o[-300:]
